@@ -969,6 +969,10 @@ def build_fortran_definition(
             variable = f"solved_values({variables_to_numbers[match[1]]}, {match[2].replace('t', 'index')})"
             code = code[:start] + variable + code[end:]
 
+        # Mark decimal literals as double precision (a bare `0.1` is a
+        # single-precision constant in Fortran but a double in Python)
+        code = re.sub(r'(?<![\w.])(\d+\.\d*|\.\d+)(?![\w.])', r'\1d0', code)
+
         block = f'! {equation}\n' + '  &\n&  '.join(
             textwrap.wrap(code, width=wrap_width)
         )
